@@ -5,7 +5,7 @@ use crate::rng::Rng;
 
 pub const SHAPES: &[&str] = &[
     "iid_grid", "random_walk", "monotone_up", "monotone_down", "constant", "zeros_sparse", "sign_alternating",
-    "volatile_then_flat", "step", "sine_noise", "mixed_segments", "two_valued", "iid_uniform", "zero_sum_pairs", "periodic",
+    "volatile_then_flat", "step", "sine_noise", "mixed_segments", "two_valued", "iid_uniform", "zero_sum_pairs", "periodic", "mixed_magnitude",
 ];
 
 /// shapes under which the state of any deterministic windowed computation is periodic after its warm-up
@@ -120,7 +120,7 @@ fn unit_shape(r: &mut Rng, shape: u8, len: usize) -> Vec<f64> {
             while v.len() < len {
                 let seg = 1 + r.below(60);
                 let sh = r.below(SHAPES.len()) as u8;
-                let sh = if sh == 10 { 0 } else { sh };
+                let sh = if sh == 10 || sh == 15 { 0 } else { sh };
                 let part = unit_shape(r, sh, seg.min(len - v.len()));
                 v.extend(part);
             }
@@ -143,6 +143,15 @@ fn unit_shape(r: &mut Rng, shape: u8, len: usize) -> Vec<f64> {
             let pat: Vec<f64> = (0..p).map(|_| (r.below(17) as f64 - 8.0) * 0.25).collect();
             for i in 0..len {
                 v.push(pat[i % p]);
+            }
+        }
+        15 => {
+            // ordinary grid values with one value in ten 1e300 times smaller (non-zero): a ratio between a current
+            // and an old value can then overflow although every input is finite (under a positive feed the
+            // affine map to positive values makes this an ordinary grid stream)
+            for _ in 0..len {
+                let x = (r.below(17) as f64 - 8.0) * 0.25;
+                v.push(if r.chance(0.1) { x * 1e-300 } else { x });
             }
         }
         _ => {
@@ -206,6 +215,18 @@ pub fn long_len(r: &mut Rng) -> usize {
         r.range(132_000, 150_000)
     } else {
         r.range(1_050_000, 1_100_000)
+    }
+}
+
+/// The mixed-magnitude shape is not used for trees containing CenterOfGravity: its denominator is the plain sum
+/// of the window, which on signed data of very different magnitudes can be non-zero and 1e300 times smaller
+/// than the numerator - overflow of an unbounded function, not a defect (its bound in the properties is for
+/// positive inputs).
+pub fn shape_for(trees: &[crate::spec::Spec], shape: u8) -> u8 {
+    if shape as usize % SHAPES.len() == 15 && trees.iter().any(|t| t.contains(crate::spec::K::CoG)) {
+        0
+    } else {
+        shape
     }
 }
 
